@@ -118,7 +118,8 @@ bool FileManager::getCleanLine(std::istream& _ifs, std::string& _string, bool _s
                 return true;
         }
 
-        if(_ifs.eof()) {
+        if(!_ifs.good()) {
+            // end of file, or the stream is in a failed state: no more input either way
             if (verbosity_level_ >= 2) {
                 std::cerr << "End of file reached while searching for input!" << std::endl;
             }
